@@ -119,9 +119,20 @@ func Run(t *testing.T, prop string, seed uint64, tier string, replay *hcommon.Re
 	skipOther := uint64(p.Sched.SkipOther * (1 << 32))
 	stallP := uint64(p.Sched.StallProb * (1 << 32))
 	stallsLeft := p.Sched.StallBudget
+	slowP := uint64(p.Sched.SlowProb * (1 << 32))
+	slowPrefix := "rpc:" + p.Sched.SlowMethod + "@"
 	stallFn := func(site string, draw func() uint64) time.Duration {
 		if strings.HasPrefix(site, "h:") || strings.HasPrefix(site, "chord/local.go:") || strings.HasPrefix(site, "simnet:") {
 			return 0
+		}
+		if slowP > 0 && strings.HasPrefix(site, "chord/") {
+			if t := simrt.Self(); t != nil && strings.HasPrefix(t.Name, slowPrefix) {
+				if draw()&0xffffffff < slowP {
+					simrt.Probe("slow_handler_stall")
+					return time.Duration(draw() % uint64(p.Sched.SlowMax+1))
+				}
+				return 0
+			}
 		}
 		if vm := p.Sched.VictimMod; vm > 0 && strings.HasPrefix(site, "chord/") && simrt.Mix(p.Sched.VictimSalt, simrt.HashString(site))%vm == 0 {
 			if draw()&1 == 0 {
